@@ -220,7 +220,17 @@ def run(ctx):
         val = node.args[0] if isinstance(node, ast.Call) and node.args else getattr(node, "value", None)
         ctx.check(val is not None and zp.is_z(val), "R4", md, node, f"{CLS}.onestep", node, "displacement is zero on padding rows",
                   f"displacement `{norm(val)}` is not zero on padding rows: padding atoms move")
-        red = [c for c in calls_in(val) if callee_attr(c) in ("sum", "mean", "max", "min", "norm", "amax")] if val is not None else []
+        red = []
+        if val is not None:
+            ldefs = local_defs(one)
+            todo, seen = [val], set()
+            while todo:
+                e = todo.pop()
+                red += [c for c in calls_in(e) if callee_attr(c) in ("sum", "mean", "max", "min", "norm", "amax", "amin", "median")]
+                for nm in names_in(e):
+                    if nm in ldefs and nm not in seen:
+                        seen.add(nm)
+                        todo += ldefs[nm]
         ctx.check(not red, "R4", md, node, f"{CLS}.onestep", node, "no reduction over the batch enters the displacement",
                   f"displacement contains a reduction `{short(red[0], 40) if red else ''}`: one molecule's path depends on the others")
 
